@@ -722,6 +722,9 @@ def is_comptime_expression(node: ast.AST) -> ComptimeExpr | None:
         and isinstance(node.func, ast.Name)
         and node.func.id in ("py", "comptime")
     ):
+        if node.keywords:
+            err = UnsupportedError(node.keywords[0], "Keyword arguments")
+            raise GuppyError(err)
         match node.args:
             case []:
                 raise GuppyError(EmptyComptimeExprError(node))
